@@ -543,9 +543,16 @@ theorem sim_unpack (names : List Expr) :
     refine post_ite (fun _ => post_fail _ hwf1) (fun _ => ?_)
     have hC1 := hC.mono hle1 hwf1
     generalize (List.filterMap (fun v => match v with | .str s => some s | _ => none) ns) = strs
-    generalize (if xs.length < strs.length + 1 then e else none) = cond
+    generalize (if strs.length = 0 || xs.length < strs.length + 1 then e else none) = cond
     cases cond with
-    | some er => exact post_child hwf1 hC1 (fun s2 F hwf2 _ _ => post_fail _ hwf2)
+    | some er =>
+      show Post ObjRel s1 ((childCtx Ca >>= fun F =>
+        if strs.length = 0 then (publishNamed F (bindPos 1 xs) >>= fun _ => fail er) else fail er) s1) (.error er)
+      by_cases hn : strs.length = 0
+      · simp only [if_pos hn]
+        exact post_child_data (DataWrite.publishNamed _) hwf1 hC1 (fun s2 X hwf2 _ _ => post_fail _ hwf2)
+      · simp only [if_neg hn]
+        exact post_child hwf1 hC1 (fun s2 F hwf2 _ _ => post_fail _ hwf2)
     | none =>
       rw [child_ite]
       refine post_ite (fun _ => ?_) (fun _ => ?_)
